@@ -12,7 +12,7 @@ from concurrent.futures import ThreadPoolExecutor
 
 REPO = os.environ.get("VERIF_REPO", "/repo")
 VERIF = os.path.dirname(os.path.dirname(os.path.abspath(__file__)))
-BUILD = os.path.join(VERIF, "build")
+BUILD = os.environ.get("VERIF_BUILD") or os.path.join(VERIF, "build")
 
 CORE = ["gc.c", "sexp.c", "bignum.c", "gc_heap.c", "opcodes.c", "vm.c", "eval.c", "simplify.c"]
 STUBS = ["lib/chibi/crypto/crypto.stub", "lib/chibi/emscripten.stub", "lib/chibi/filesystem.stub",
